@@ -176,7 +176,7 @@ pub fn corpus(tier: Tier) -> Vec<(String, String)> {
     // all of G(2,2,3,2) (accepted and conflicting alike), plain presentation with names in both orders
     {
         use crate::scopes::*;
-        let sc = Scope { n: 2, t: 2, p: 3, k: 2, symmetry: false };
+        let sc = Scope { n: 2, t: 2, p: 3, k: 2, symmetry: false, only_cyclic: false };
         let rhss = all_rhs(sc.n, sc.t, sc.k);
         let mut idx = 0u64;
         let step = tier.pick(4, 1);
